@@ -413,7 +413,8 @@ impl Wallet {
                         //
                         if input.amount > 0 && input.public_key == self.public_key {
                             wallet_changed |= WALLET_UPDATED;
-                            self.add_slip(block.id, tx_index, input, true, None);
+                            // the slip comes back as what it was : an output of the block and transaction that created it
+                            self.add_slip(input.block_id, input.tx_ordinal, input, true, None);
                         }
                         i += 1;
                     }
